@@ -1,0 +1,24 @@
+//go:build verif
+
+package dastard
+
+// Verification hook for property C13 (build tag "verif" only): no logic beyond building records.
+
+// VerifAnalyzeBatch runs AnalyzeData ONCE on several records built from raw samples (all with the same
+// presamples and signedness), so that state shared between the records of one call is exercised.
+func (dsp *DataStreamProcessor) VerifAnalyzeBatch(datas [][]uint16, presamples int, signed bool) []VerifRecord {
+	recs := make([]*DataRecord, len(datas))
+	for k, data := range datas {
+		raw := make([]RawType, len(data))
+		for i, v := range data {
+			raw[i] = RawType(v)
+		}
+		recs[k] = &DataRecord{data: raw, presamples: presamples, signed: signed, channelIndex: dsp.channelIndex}
+	}
+	dsp.AnalyzeData(recs)
+	out := make([]VerifRecord, len(recs))
+	for k, r := range recs {
+		out[k] = verifRecord(r)
+	}
+	return out
+}
